@@ -222,6 +222,7 @@ inline cocls::async<void> pmt_reader(pmt_sub &S) {
         if (!b) break;
         S.got.push_back(S.s->value());
         S.poss.push_back((long)S.s->position());
+        if (S.got.size() > 300) break; // a stream of at most 24 values: runaway reader (the oracle reports it)
     }
     S.finished.store(1, std::memory_order_relaxed);
 }
@@ -272,13 +273,13 @@ inline void publisher_mt(const vf::opts &o, vf::report &R, vf::team &T, uint64_t
                 if (S.late) {
                     S.start_lo = X.pub_done.load(std::memory_order_relaxed);
                     // the publisher object may be destroyed concurrently in close_style 1: late subscribers only with close()
-                    if (X.close_style == 1) { S.finished.store(1); S.late = true; S.s.reset(); return; }
+                    if (X.close_style == 1) { S.finished.store(1); return; }
                     S.s = std::make_unique<sub_t>(*X.pub, pm_type(S.mode));
                     S.start_hi = X.pub_started.load(std::memory_order_relaxed);
                 }
                 if (S.style == 0) pmt_reader(S).detach();
                 else {
-                    for (;;) { bool b = S.s->next(); if (!b) break; S.got.push_back(S.s->value()); S.poss.push_back((long)S.s->position()); }
+                    for (;;) { bool b = S.s->next(); if (!b) break; S.got.push_back(S.s->value()); S.poss.push_back((long)S.s->position()); if (S.got.size() > 300) break; }
                     S.finished.store(1, std::memory_order_relaxed);
                 }
             }
